@@ -2487,15 +2487,15 @@ V(id='c35-identify-unverified-formula', prop='C35', file='mpmath/identification.
   old="            if not abs(v - x) <= 100*tol*max(1, abs(x)):\n                return False\n", new="            pass\n",
   expect='fire:Q-R11:identify')
 V(id='c35-identify-zero-division-accepted', prop='C35', file='mpmath/identification.py',
-  old="        except (ArithmeticError, ValueError):\n            return False\n        except (NameError, SyntaxError, TypeError):\n",
-  new="        except (ArithmeticError, ValueError, NameError, SyntaxError, TypeError):\n",
+  old="        except (ArithmeticError, ValueError, NameError, SyntaxError,\n                TypeError):\n            return False\n",
+  new="        except (ArithmeticError, ValueError, NameError, SyntaxError,\n                TypeError):\n            pass\n",
   expect='fire:Q-R11:identify')
 V(id='c35-identify-return-unconditional', prop='C35', file='mpmath/identification.py',
   old="                if addsolution(s) and not full:\n                    return solutions[0]\n",
   new="                addsolution(s)\n                if not full:\n                    return solutions[0]\n",
   expect='fire:Q-R11:identify')
 V(id='c35-identify-python-int-literals', prop='C35', file='mpmath/identification.py',
-  old="            v = eval(_int_literals.sub(r'mpf(\\1)', s), names)\n", new="            v = eval(s, names)\n",
+  old="            v = eval(_int_literals.sub(r'mpf(\\1)', text), names)\n", new="            v = eval(text, names)\n",
   expect='fire:Q-R11:identify')
 V(id='c35-findpoly-rounded-powers', prop='C35', file='mpmath/identification.py',
   old="            ctx.prec = orig + 60\n            xs.append(x**i)\n", new="            xs.append(x**i)\n",
@@ -2812,3 +2812,9 @@ V(id='c43-asech-plain-reciprocal', prop='C43', file='mpmath/functions/functions.
 V(id='c43-asech-side-reversed', prop='C43', file='mpmath/functions/functions.py',
   old="        if ctx._im(z) > 0:\n            return ctx.conj(v)\n        return v\n", new="        if ctx._im(z) < 0:\n            return ctx.conj(v)\n        return v\n",
   expect='fire:F-R14:asech')
+
+# ---- C35 third hunt: Q-R11 no accepting handler (fix 06d98b2) ----
+V(id='c35-identify-name-error-accepts', prop='C35', file='mpmath/identification.py',
+  old="        except (ArithmeticError, ValueError, NameError, SyntaxError,\n                TypeError):\n            return False\n",
+  new="        except (ArithmeticError, ValueError):\n            return False\n        except (NameError, SyntaxError, TypeError):\n            pass\n",
+  expect='fire:Q-R11:identify')
